@@ -12,51 +12,7 @@
 using namespace foonathan::memory;
 using namespace vshim;
 
-extern "C" {
-// kind: 0 node, 1 array, 2 try node, 3 try array ; return 0 = failure
-void* verif_leaf_alloc(ulong id, ulong kind, ulong count, ulong size, ulong alignment);
-void verif_leaf_dealloc(ulong id, ulong kind, void* p, ulong count, ulong size, ulong alignment);
-ulong verif_leaf_try_dealloc(ulong id, ulong kind, void* p, ulong count, ulong size, ulong alignment);
-ulong verif_leaf_max(ulong id, ulong which);
-void verif_tracker(ulong what, void* p, ulong count, ulong size, ulong alignment);
-void verif_mutex(ulong id, ulong lock);
-void verif_dtor(ulong id);
-}
-
-// recording leaf: stateful, composable (Tag makes distinct types for nesting: the library's ebo_storage bases must differ)
-template <int Tag>
-struct rec_t
-{
-    using is_stateful = std::true_type;
-    ulong id;
-    explicit rec_t(ulong i = 1) noexcept : id(i) {}
-    rec_t(rec_t&& o) noexcept : id(o.id) {}
-    rec_t& operator=(rec_t&& o) noexcept { id = o.id; return *this; }
-    void* allocate_node(std::size_t s, std::size_t a)
-    {
-        void* p = verif_leaf_alloc(id, 0, 1, s, a);
-        if (!p) FOONATHAN_THROW(out_of_memory(allocator_info("verif::rec", this), s));
-        return p;
-    }
-    void* allocate_array(std::size_t c, std::size_t s, std::size_t a)
-    {
-        void* p = verif_leaf_alloc(id, 1, c, s, a);
-        if (!p) FOONATHAN_THROW(out_of_memory(allocator_info("verif::rec", this), c * s));
-        return p;
-    }
-    void deallocate_node(void* p, std::size_t s, std::size_t a) noexcept { verif_leaf_dealloc(id, 0, p, 1, s, a); }
-    void deallocate_array(void* p, std::size_t c, std::size_t s, std::size_t a) noexcept { verif_leaf_dealloc(id, 1, p, c, s, a); }
-    void* try_allocate_node(std::size_t s, std::size_t a) noexcept { return verif_leaf_alloc(id, 2, 1, s, a); }
-    void* try_allocate_array(std::size_t c, std::size_t s, std::size_t a) noexcept { return verif_leaf_alloc(id, 3, c, s, a); }
-    bool try_deallocate_node(void* p, std::size_t s, std::size_t a) noexcept { return verif_leaf_try_dealloc(id, 0, p, 1, s, a); }
-    bool try_deallocate_array(void* p, std::size_t c, std::size_t s, std::size_t a) noexcept { return verif_leaf_try_dealloc(id, 1, p, c, s, a); }
-    std::size_t max_node_size() const noexcept { return verif_leaf_max(id, 0); }
-    std::size_t max_array_size() const noexcept { return verif_leaf_max(id, 1); }
-    std::size_t max_alignment() const noexcept { return verif_leaf_max(id, 2); }
-};
-using rec = rec_t<0>;
-using recB = rec_t<1>;
-using recC = rec_t<2>;
+#include "leaf.hpp"
 struct hook_tracker
 {
     void on_node_allocation(void* p, std::size_t s, std::size_t a) noexcept { verif_tracker(0, p, 1, s, a); }
